@@ -23,6 +23,10 @@ def open_for(prop_id):
     return [f for f in _doc()["findings"] if f.get("status") == "open" and prop_id in f["properties"]]
 
 
+def fixed_for(prop_id):
+    return [f for f in _doc()["findings"] if f.get("status") == "fixed" and prop_id in f["properties"]]
+
+
 def by_id(fid):
     for f in _doc()["findings"]:
         if f["id"] == fid:
